@@ -80,7 +80,7 @@ def gen_cases(rnd, n):
                     else:
                         q['items'].append({'e': ['lit', rnd.choice(['k', 'select', None, 'a1'])]})
                 if shape == 'unnest':
-                    q['items'].append({'unnest': ['split', ['a', rnd.randrange(ncols)], ';']})
+                    q['items'].append({'unnest': [rnd.choice(['split', 'splitne']), ['a', rnd.randrange(ncols)], ';']})
                 if rnd.random() < 0.4:
                     q['where'] = qgen.gen_bool_expr(rnd, ncols, 2)
                 if shape == 'order':
